@@ -16,6 +16,9 @@ POS = {
     "order by": (lambda x: "select a from t order by %s desc" % x, lambda t: t["orderby"]["value"]),
     "function arg": (lambda x: "select g(%s, 1) from t" % x, lambda t: t["select"]["value"]["g"][0]),
     "case branch": (lambda x: "select case when a then %s else 0 end from t" % x, lambda t: t["select"]["value"]["case"][0]["then"]),
+    "case else": (lambda x: "select case when a then 0 else %s end from t" % x, lambda t: t["select"]["value"]["case"][1]),
+    "case when": (lambda x: "select case when %s then 1 else 0 end from t" % x, lambda t: t["select"]["value"]["case"][0]["when"]),
+    "simple case else": (lambda x: "select case a when 1 then 0 else %s end from t" % x, lambda t: t["select"]["value"]["case"][1]),
     "between operand": (lambda x: "select a from t where %s between 1 and 2" % x, None),
     "in operand": (lambda x: "select a from t where b in (%s, c1)" % x, lambda t: t["where"]["in"][1][0]),
     "cast operand": (lambda x: "select cast(%s as int) from t" % x, lambda t: t["select"]["value"]["cast"][0]),
@@ -184,6 +187,7 @@ def run(ctx):
         exprs = [e for i, e in enumerate(exprs) if i % 2 == ctx.seed % 2] + exprs[:4]
     # sub-queries as operands (with and without their own ORDER BY / LIMIT / OFFSET): an extra pair of parentheses around them is inert too
     subq = ["(select z from w)", "(select z from w order by z desc limit 1)", "(select z from w where z > n limit 2 offset 1)", "(select z from w union select k from u order by 1)"]
+    exprs += ["case when n then m1 else k end", "case when n then m1 end", "case n when 1 then m1 else k end", "case n when 1 then m1 when 2 then k end"]   # in every seed's sample
     exprs += subq + ["n = %s" % q for q in subq[:2]] + ["n in %s" % subq[1], "exists %s" % subq[1], "m1 + %s" % subq[1]]
     for e in exprs:
         ref = None
